@@ -1,10 +1,14 @@
 #!/bin/bash
-# Offline setup: make sure hypothesis is importable by /venv/bin/python (install from the local wheelhouse if not).
-set -e
+# Offline setup: make sure hypothesis is importable by /venv/bin/python (install from the local wheelhouse if not),
+# and put atheris (used only by C17's thorough-tier fuzz part) into /verif/.deps; nothing is fetched from a network.
 cd "$(dirname "$0")"
 if ! /venv/bin/python -c "import hypothesis" 2>/dev/null; then
   /venv/bin/pip install --no-index --find-links /opt/veriftools/wheels hypothesis >/dev/null 2>&1 || \
-  /venv/bin/pip install --no-index --find-links /opt/veriftools/wheels --target .deps hypothesis sortedcontainers attrs
+  /venv/bin/pip install --no-index --find-links /opt/veriftools/wheels --target .deps hypothesis sortedcontainers attrs >/dev/null 2>&1
 fi
-PYTHONPATH=.deps /venv/bin/python -c "import sys; sys.path.append('.deps'); import hypothesis, teaal, lark, sympy, networkx; print('setup ok: hypothesis', hypothesis.__version__)"
+if ! PYTHONPATH=.deps /venv/bin/python -c "import atheris" 2>/dev/null; then
+  /venv/bin/pip install --no-index --find-links /opt/veriftools/wheels --target .deps atheris >/dev/null 2>&1 || \
+    echo "note: atheris not installable; C17's fuzz part will report itself unavailable (the Hypothesis parts are unaffected)"
+fi
 mkdir -p evidence replays
+PYTHONPATH=.deps /venv/bin/python -c "import sys; sys.path.append('.deps'); import hypothesis, teaal, lark, sympy, networkx; print('setup ok: hypothesis', hypothesis.__version__)"
